@@ -264,7 +264,7 @@ def main(pid, tier, seed):
 
     # ---- code -> spec: streams of the real queue ----
     rdirs = special_rulesets(work)
-    for k in range(25 if tier == 'quick' else 400):
+    for k in range(25 if tier == 'quick' else 1200):
         d = os.path.join(work, 'f%d' % k)
         desc = ptq.random_float_ruleset(rng, d, normalize_base=True)
         rdirs.append((d, {'kind': 'float_ruleset', 'base': desc['base']}))
